@@ -12,7 +12,21 @@ From BB Require Import BN Brute SpaceFacts TrapFacts PercolateFacts AttractorFac
   Strict PetriNet Control Meta FilterFacts PetriNetFacts TrappistFacts DiagramStruct DiagramSem1 DiagramCache
   DiagramDepth DiagramComplete Termination ControlFacts MetaFacts Candidates StrictFacts MinExpandFacts CandidatesFacts SymbolicTest SymbolicTestFacts Signed ReductionFacts ControlFacts2 Main Blocks BlocksFacts ObsFacts OwnerFacts CandidatesTerm
   PartialOwner BlockMath BlockComplete ASeeds ASeedsFacts LogChecks SkipRule SkipRuleFacts Names NamesFacts Perm PermFacts SCC SCCFacts SCCStruct ControlFacts3 SCCTerm FilterSym Main2 StrategyFacts ControlFacts4 SkipRuleFacts2 SCCComplete SCCAttr BlockComplete2 ControlFacts5 Iso SkipSem ControlFacts6.
-From BB Require Import PyLib PySrcBase PySrcKey PySrcKeyFacts.
+From BB Require Import PyLib PySrcBase PySrcKey PySrcKeyFacts PyLibCore PySrcCore PySrcCoreFacts.
+
+(* ... _ensure_node / _ensure_edge / _update_node_depth compute Diagram.ensure_node *)
+Theorem C20_source_ensure_node : forall (fuel : nat) (N : net) (cfg : config) (pnc : nat -> bool) (w : pyst) (p : nat) (m : list (option bool)), CoreInv N w -> p < size (p_sd w) -> length m = nvars N -> trap_space N m -> strict_subspace (percolate_b N m) (n_space (get (p_sd w) p)) -> S (size (p_sd w)) < fuel -> exists w' : pyst, py_ensure_node fuel N cfg pnc w (Some p) m = CRet w' (snd (ensure_node N (p_sd w) (Some p) m)) /\ p_sd w' = fst (ensure_node N (p_sd w) (Some p) m) /\ CoreInv N w'.
+Proof. exact py_ensure_node_spec. Qed.
+
+(* translator tie: __len__, root and node_is_minimal as generated from the source *)
+Theorem C20_source_len : forall (fuel : nat) (N : net) (cfg : config) (pnc : nat -> bool) (w : pyst), py_len fuel N cfg pnc w = CRet w (size (p_sd w)).
+Proof. exact py_len_spec. Qed.
+
+Theorem C20_source_root : forall (fuel : nat) (N : net) (cfg : config) (pnc : nat -> bool) (w : pyst), py_root fuel N cfg pnc w = CRet w 0.
+Proof. exact py_root_spec. Qed.
+
+Theorem C20_source_node_is_minimal : forall (fuel : nat) (N : net) (cfg : config) (pnc : nat -> bool) (w : pyst) (i : nat), py_node_is_minimal fuel N cfg pnc w i = CRet w (is_minimal (p_sd w) i).
+Proof. exact py_node_is_minimal_spec. Qed.
 
 Theorem C20_find_node_exact : forall (N : net) (d : sd) (X : list (option bool)) (i : nat), SWF N d -> length X = nvars N -> find_node d X = Some i <-> i < size d /\ n_space (get d i) = X.
 Proof. exact find_node_exact. Qed.
@@ -68,6 +82,10 @@ Proof. exact is_isomorphic_b_spec. Qed.
 Theorem C20_is_isomorphic_symmetric : forall a b : sd, is_isomorphic_b a b = is_isomorphic_b b a.
 Proof. exact is_isomorphic_b_sym. Qed.
 
+Print Assumptions C20_source_ensure_node.
+Print Assumptions C20_source_len.
+Print Assumptions C20_source_root.
+Print Assumptions C20_source_node_is_minimal.
 Print Assumptions C20_find_node_exact.
 Print Assumptions C20_find_node_none.
 Print Assumptions C20_step_extends.
